@@ -153,7 +153,7 @@ def gen_case(rng: random.Random, tier: str, bias: str = ''):
             pairs.append([h, hc])
             T.handles[q][hc] = i
             macros += [f'pickle {parent} {i}', f'unpickle {q} {i}']
-        emit('spawn', parent, ['spawn', q, pairs, proc_cls], macros)
+        emit('spawn', parent, ['spawn', q, pairs, proc_cls, rng.random() < 0.5], macros)
         return q
 
     def running():
